@@ -70,9 +70,10 @@ static void check_step(int mode, const a_pid &b, const a_pid &a, double set, dou
         bool inside = b.sum > b.summin && b.sum < b.summax;
         bool beyond = b.sum > b.summax || b.sum < b.summin;
         if (limit_active && !inside) { *limit_active = true; }
-        if (beyond)
+        if (beyond && ki >= 0)
         {
-            // once outside the clamp the integrator never moves further out
+            // once outside the clamp the integrator never moves further out (premise of the statement: ki >= 0; a fuzzy-scheduled gain
+            // whose exact value is 0 can come out as -1e-16, and then the step legitimately moves the sum by that rounding amount)
             if (b.sum > b.summax && a.sum > b.sum) { ck.fail("windup", "integrator " + num(b.sum) + " above its clamp " + num(b.summax) + " moved further out to " + num(a.sum)); return; }
             if (b.sum < b.summin && a.sum < b.sum) { ck.fail("windup", "integrator " + num(b.sum) + " below its clamp " + num(b.summin) + " moved further out to " + num(a.sum)); return; }
         }
